@@ -914,29 +914,39 @@ Proof.
 Qed.
 
 (** * Part 5: what one step does to each task (with the guard facts) *)
-Record leave_ok (s : state) (k : Z) (x y : task) : Prop := {
+Record leave_ok (s s' : state) (k : Z) (x y : task) : Prop := {
   lo_main : k_st x = TMain -> k_st y <> TMain -> busy s k = false;
   lo_act : acting_st (k_st x) = true -> acting_st (k_st y) = false -> busy s k = false;
   lo_inl : k_stage x = SInline -> k_st x = TQueued -> k_st y <> TQueued ->
-           busy s (k_parent x) = false /\ acting_task s (k_parent x) (k_t x) = true
+           busy s (k_parent x) = false /\ acting_task s (k_parent x) (k_t x) = true;
+  lo_exc : (k_st x = TFailed /\ k_st y = TPost) \/ (k_phase x < 3 /\ k_phase y = 3) ->
+           coord_done s' (k_t x) = true;
+  lo_status : k_phase y = k_phase x + 1 -> k_phase x <= 1 ->
+              exists c', find_coord (k_t x) (coords s') = Some c' /\
+                         (c_status c' = Queued \/ c_status c' = Running)
 }.
 
-Lemma leave_ok_same_st s k x y : k_st y = k_st x -> leave_ok s k x y.
-Proof. intros E. constructor; rewrite E; intros; congruence. Qed.
+Lemma leave_ok_same_st s s' k x y : k_st y = k_st x -> k_phase y = k_phase x -> leave_ok s s' k x y.
+Proof.
+  intros E E2. constructor; rewrite ?E, ?E2; intros; try congruence; try lia.
+  destruct H as [[H1 H2]|[H1 H2]]; [congruence|lia].
+Qed.
 
 Definition tasks_evolve (s s' : state) : Prop :=
   (forall k x, find_task k (tasks s) = Some x ->
-     exists y, find_task k (tasks s') = Some y /\ tstep s x y /\ leave_ok s k x y) /\
+     exists y, find_task k (tasks s') = Some y /\ tstep s x y /\ leave_ok s s' k x y) /\
   (forall k y, find_task k (tasks s') = Some y -> find_task k (tasks s) = None ->
      exists a t g final deps kind,
-       y = fresh_task k t g a final deps kind /\ submit_ok s a k t g final deps kind).
+       y = fresh_task k t g a final deps kind /\ submit_ok s a k t g final deps kind) /\
+  (forall k1 k2 y1 y2, find_task k1 (tasks s) = None -> find_task k2 (tasks s) = None ->
+     find_task k1 (tasks s') = Some y1 -> find_task k2 (tasks s') = Some y2 -> k1 = k2).
 
 Lemma evolve_upd s s' k x f :
   find_task k (tasks s) = Some x -> (forall z, k_id z = k -> k_id (f z) = k) ->
-  tasks s' = upd_task k f (tasks s) -> tstep s x (f x) -> leave_ok s k x (f x) ->
+  tasks s' = upd_task k f (tasks s) -> tstep s x (f x) -> leave_ok s s' k x (f x) ->
   tasks_evolve s s'.
 Proof.
-  intros Hf Hid Ht Hts Hl. split.
+  intros Hf Hid Ht Hts Hl. split; [|split].
   - intros k0 x0 H0. rewrite Ht, find_task_upd' by exact Hid.
     destruct (k0 =? k) eqn:E.
     + assert (k0 = k) by lia. subst k0. rewrite Hf in H0. injection H0 as <-.
@@ -944,7 +954,16 @@ Proof.
     + exists x0. split; [exact H0|]. split; [constructor|now apply leave_ok_same_st].
   - intros k0 y Hy Hn. rewrite Ht, find_task_upd' in Hy by exact Hid.
     destruct (k0 =? k); [rewrite Hn in Hy; discriminate|congruence].
+  - intros k1 k2 y1 y2 H1 _ Hy1 _. rewrite Ht, find_task_upd' in Hy1 by exact Hid.
+    destruct (k1 =? k); [rewrite H1 in Hy1; discriminate|congruence].
 Qed.
+
+Ltac lo_tac :=
+  constructor; cbn [k_st k_phase with_st];
+  [ intros ?H1 ?H2 | intros ?H1 ?H2 | intros ?H1 ?H2 ?H3 | intros [[?H1 ?H2]|[?H1 ?H2]] | intros ?H1 ?H2 ];
+  try lia; try assumption; try contradiction; try congruence;
+  try (match goal with Hst : k_st _ = _ |- _ => rewrite Hst in *; cbn in *; congruence end);
+  try (match goal with Hst : if k_final ?x then _ else _ |- _ => destruct (k_final x); congruence end).
 
 Lemma sstep_tasks s s' : sstep s s' -> tasks_evolve s s'.
 Proof.
@@ -952,29 +971,32 @@ Proof.
   destruct H as [Ht Hs _|k t g0 a final deps kind Hn Hso Ht _ Hs _|k x f Hf Hid Hts Hio Ht Hs _
                 |k x sem v Hf _ _ Hst Hp Ht _ Hs _|k x Hf Hst Hp Hni _ Ht Hs _ _|k x rest Hf Hst Hni Hq _ Ht Hs _ _
                 |k x Hf Hni Hst Hb Ht Hs _ _|k x Hf Hst Hr _ Ht _ Hs _|g0 _ Ht _ _ _ Hs|g0 _ Ht _ _ _ _ _ Hs].
-  - split; rewrite Ht.
+  - split; [|split]; rewrite Ht.
     + intros k x Hx. exists x. split; [exact Hx|]. split; [constructor|now apply leave_ok_same_st].
     + intros; congruence.
-  - split; rewrite Ht.
+    + intros; congruence.
+  - split; [|split]; rewrite Ht.
     + intros k0 x Hx. rewrite find_task_app, Hx. exists x. split; [reflexivity|].
       split; [constructor|now apply leave_ok_same_st].
     + intros k0 y Hy Hn0. rewrite find_task_app, Hn0 in Hy. cbn [k_id fresh_task] in Hy.
       destruct (k =? k0) eqn:E; [|discriminate]. assert (k = k0) by lia. subst k0.
       injection Hy as <-. eauto 10.
+    + intros k1 k2 y1 y2 H1 H2 Hy1 Hy2. rewrite find_task_app, H1 in Hy1. rewrite find_task_app, H2 in Hy2.
+      cbn [k_id fresh_task] in *.
+      destruct (k =? k1) eqn:E1; [|discriminate]. destruct (k =? k2) eqn:E2; [|discriminate]. lia.
   - apply (evolve_upd s s' k x f Hf Hid Ht Hts). destruct Hio. constructor; assumption.
   - apply (evolve_upd s s' k x (fun y => with_permit y sem) Hf (fun z Hz => Hz) Ht); [now apply ts_permit|now apply leave_ok_same_st].
-  - apply (evolve_upd s s' k x (fun y => with_st y TQueued) Hf (fun z Hz => Hz) Ht); [now apply ts_enqueue|].
-    constructor; cbn [k_st with_st]; rewrite Hst; try discriminate; intros; contradiction.
-  - apply (evolve_upd s s' k x (fun y => with_st y TStarted) Hf (fun z Hz => Hz) Ht); [now apply ts_start|].
-    constructor; cbn [k_st with_st]; rewrite Hst; try discriminate; intros; contradiction.
-  - apply (evolve_upd s s' k x (fun y => with_st y TEnded) Hf (fun z Hz => Hz) Ht); [now apply ts_end|].
-    constructor; cbn [k_st with_st]; intros; try assumption; contradiction.
+  - apply (evolve_upd s s' k x (fun y => with_st y TQueued) Hf (fun z Hz => Hz) Ht); [now apply ts_enqueue|]. lo_tac.
+  - apply (evolve_upd s s' k x (fun y => with_st y TStarted) Hf (fun z Hz => Hz) Ht); [now apply ts_start|]. lo_tac.
+  - apply (evolve_upd s s' k x (fun y => with_st y TEnded) Hf (fun z Hz => Hz) Ht); [now apply ts_end|]. lo_tac.
   - apply (evolve_upd s s' k x with_released Hf (fun z Hz => Hz) Ht); [now apply ts_release|now apply leave_ok_same_st].
-  - split; rewrite Ht.
+  - split; [|split]; rewrite Ht.
     + intros k x Hx. exists x. split; [exact Hx|]. split; [constructor|now apply leave_ok_same_st].
     + intros; congruence.
-  - split; rewrite Ht.
+    + intros; congruence.
+  - split; [|split]; rewrite Ht.
     + intros k x Hx. exists x. split; [exact Hx|]. split; [constructor|now apply leave_ok_same_st].
+    + intros; congruence.
     + intros; congruence.
 Qed.
 
@@ -991,7 +1013,7 @@ Lemma task_inv_reachable (P : task -> Prop) s0 :
 Proof.
   intros H0 Hnew Hstep. apply (invariant_reachable (fun s => forall k x, find_task k (tasks s) = Some x -> P x)).
   - rewrite H0. intros; discriminate.
-  - intros s e s' I H k y Hy. apply step_evolve in H as [Hold Hfresh].
+  - intros s e s' I H k y Hy. apply step_evolve in H as (Hold & Hfresh & _).
     destruct (find_task k (tasks s)) as [x|] eqn:E.
     + destruct (Hold k x E) as (y' & Hy' & Hts & _). rewrite Hy in Hy'. injection Hy' as <-.
       eapply Hstep; eauto.
@@ -1202,7 +1224,7 @@ Record req_inv (s : state) : Prop := {
 
 Lemma req_inv_step s e s' : req_inv s -> step s e = Some s' -> req_inv s'.
 Proof.
-  intros [R1 R2] H. pose proof (step_evolve _ _ _ H) as [Hold _]. apply step_rstep in H.
+  intros [R1 R2] H. pose proof (step_evolve _ _ _ H) as (Hold & _ & _). apply step_rstep in H.
   destruct H as [Hr|a r op t uid Hb Hfr Hwho Hr Ht|r f Hf Hr Ht].
   - constructor; unfold inflight; rewrite Hr; [|exact R2].
     intros q Hq He Hop. destruct (R1 q Hq He Hop) as (x & Hx & Hst & Hxt & Hk).
@@ -1211,7 +1233,7 @@ Proof.
     split; [|auto].
     destruct (tst_eqb (k_st y) TMain) eqn:E; [now apply tst_eqb_true|].
     exfalso. assert (Hne : k_st y <> TMain) by (intros Hc; rewrite Hc in E; discriminate).
-    pose proof (lo_main _ _ _ _ Hl Hst Hne) as Hbusy.
+    pose proof (lo_main _ _ _ _ _ Hl Hst Hne) as Hbusy.
     apply (busy_false_in_request _ _ Hbusy). apply in_map. apply filter_In. split; [exact Hq|].
     unfold unended. now rewrite He.
   - constructor; unfold inflight; rewrite Hr, ?Ht.
@@ -1377,11 +1399,10 @@ Proof.
     + intros s0 a0 k t g0 final deps kind _ Hs Ho. unfold fresh_task in *. cbn [k_stage k_st] in *.
       rewrite stage_eqb_neq in Ho by exact Hs. discriminate Ho.
     + intros s0 x y Hts Hx. destruct Hts; cbn [k_stage k_st k_permit with_st with_flags with_phase with_assoc with_permit with_released];
-        try exact Hx; intros Hs Ho; try (apply Hx; [exact Hs|]);
+        try exact Hx; intros Hs Ho; try assumption; try (apply Hx; [exact Hs|]);
         try match goal with H : k_st _ = _ |- _ => rewrite H in *; cbn in *; try discriminate; try reflexivity end;
         try assumption.
       all: try (destruct (k_final x); match goal with H : k_st _ = _ |- _ => rewrite H; reflexivity end).
-      Show.
       all: cbn in Ho; discriminate.
   - destruct (k_released x) eqn:E; [|reflexivity].
     rewrite (released_ended _ _ _ _ _ _ _ _ _ Hr k x Hx E) in Ho. discriminate.
@@ -1408,4 +1429,217 @@ Proof.
   - intros x Hx. unfold holds. destruct (Hall x Hx) as [E|E]; rewrite E.
     + assert (E2 : -1 =? i = false) by lia. now rewrite E2.
     + apply andb_false_r.
+Qed.
+
+(** * Part 9 (C03): failures are recorded before a task leaves its main phase *)
+Lemma coord_done_step s e s' t : step s e = Some s' -> coord_done s t = true -> coord_done s' t = true.
+Proof.
+  unfold coord_done. intros H Hd. destruct (find_coord t (coords s)) as [c|] eqn:E; [|discriminate].
+  destruct (coord_persists_step _ _ _ _ _ H E) as (c' & Hc' & Hcs). rewrite Hc'.
+  eapply done_monotone_cstep; eauto.
+Qed.
+
+Definition task_coord_inv (s : state) : Prop :=
+  forall k x, find_task k (tasks s) = Some x -> exists c, find_coord (k_t x) (coords s) = Some c.
+
+Lemma task_coord_inv_step s e s' : task_coord_inv s -> step s e = Some s' -> task_coord_inv s'.
+Proof.
+  intros I H k y Hy. pose proof (step_evolve _ _ _ H) as (Hold & Hnew & _).
+  destruct (find_task k (tasks s)) as [x|] eqn:E.
+  - destruct (Hold k x E) as (y' & Hy' & Hts & _). rewrite Hy in Hy'. injection Hy' as <-.
+    destruct (tstep_static _ _ _ Hts) as (_ & -> & _). destruct (I k x E) as (c & Hc).
+    destruct (coord_persists_step _ _ _ _ _ H Hc) as (c' & Hc' & _). eauto.
+  - destruct (Hnew k y Hy E) as (a & t & g & final & deps & kind & -> & Hso).
+    destruct (so_coord _ _ _ _ _ _ _ _ Hso) as (c & Hc). cbn [k_t fresh_task].
+    destruct (coord_persists_step _ _ _ _ _ H Hc) as (c' & Hc' & _). eauto.
+Qed.
+
+Lemma task_coord_inv_reachable a b c d e f g h s : reachable (init a b c d e f g h) s -> task_coord_inv s.
+Proof.
+  apply invariant_reachable; [intros k x Hx; discriminate|].
+  intros s0 ev s1 I H. eapply task_coord_inv_step; eauto.
+Qed.
+
+(** the flags of a task are frozen once it is past its main *)
+Lemma tstep_past_main s x y :
+  tstep s x y -> past_main (k_st x) = true ->
+  past_main (k_st y) = true /\ k_main_ok y = k_main_ok x /\ k_skipped y = k_skipped x /\
+  k_ran_main y = k_ran_main x.
+Proof.
+  intros H Hp. destruct H; cbn; auto;
+    try (match goal with Hst : k_st _ = _ |- _ => rewrite Hst in Hp; discriminate Hp end).
+Qed.
+
+Definition failed_done_inv (s : state) : Prop :=
+  forall k x, find_task k (tasks s) = Some x -> past_main (k_st x) = true -> k_main_ok x = false ->
+    coord_done s (k_t x) = true.
+
+Lemma failed_done_inv_step s e s' : failed_done_inv s -> step s e = Some s' -> failed_done_inv s'.
+Proof.
+  intros I H k y Hy Hp Hok. pose proof (step_evolve _ _ _ H) as (Hold & Hnew & _).
+  destruct (find_task k (tasks s)) as [x|] eqn:E.
+  - destruct (Hold k x E) as (y' & Hy' & Hts & Hl). rewrite Hy in Hy'. injection Hy' as <-.
+    destruct (tstep_static _ _ _ Hts) as (_ & Et & _). rewrite Et.
+    destruct (past_main (k_st x)) eqn:Epx.
+    + destruct (tstep_past_main _ _ _ Hts Epx) as (_ & Eok & _).
+      eapply coord_done_step; [exact H|]. apply (I k x E Epx). congruence.
+    + (* the step took the task past its main *)
+      destruct Hts; cbn in Hp, Hok; try congruence;
+        try (match goal with Hst : k_st _ = _ |- _ => rewrite Hst in Epx; discriminate Epx end).
+      * (* skip *) eapply coord_done_step; eauto.
+      * (* exception recorded *)
+        apply (lo_exc _ _ _ _ _ Hl). left. cbn. auto.
+      * destruct (k_final x); match goal with Hst : k_st _ = _ |- _ => rewrite Hst in Epx; discriminate Epx end.
+  - destruct (Hnew k y Hy E) as (a & t & g & final & deps & kind & -> & Hso).
+    cbn in Hp. destruct (stage_eqb g SInline); discriminate.
+Qed.
+
+Lemma failed_done_inv_reachable a b c d e f g h s : reachable (init a b c d e f g h) s -> failed_done_inv s.
+Proof.
+  apply invariant_reachable; [intros k x Hx; discriminate|].
+  intros s0 ev s1 I H. eapply failed_done_inv_step; eauto.
+Qed.
+
+(** a skipped task is past its main with main_ok = false; a task that is in
+    its main has ran_main; ran_main implies the done-check was passed *)
+Lemma flags_reachable a b c d e f g h s :
+  reachable (init a b c d e f g h) s ->
+  forall k x, find_task k (tasks s) = Some x ->
+    (k_skipped x = true -> past_main (k_st x) = true /\ k_main_ok x = false /\ k_ran_main x = false) /\
+    (k_st x = TMain \/ k_st x = TFailed -> k_ran_main x = true /\ k_main_ok x = false) /\
+    (k_ran_main x = true -> k_skipped x = false /\
+       (k_st x = TMain \/ k_st x = TFailed \/ past_main (k_st x) = true)) /\
+    (k_main_ok x = true -> k_ran_main x = true /\ past_main (k_st x) = true).
+Proof.
+  intros Hr.
+  apply (task_inv_reachable (fun x =>
+    (k_skipped x = true -> past_main (k_st x) = true /\ k_main_ok x = false /\ k_ran_main x = false) /\
+    (k_st x = TMain \/ k_st x = TFailed -> k_ran_main x = true /\ k_main_ok x = false) /\
+    (k_ran_main x = true -> k_skipped x = false /\
+       (k_st x = TMain \/ k_st x = TFailed \/ past_main (k_st x) = true)) /\
+    (k_main_ok x = true -> k_ran_main x = true /\ past_main (k_st x) = true))
+    (init a b c d e f g h)); [reflexivity| | |exact Hr].
+  - intros s0 a0 k t g0 final deps kind _. unfold fresh_task. cbn [k_st k_skipped k_main_ok k_ran_main].
+    split; [discriminate|]. split; [|split; discriminate].
+    destruct (stage_eqb g0 SInline); intros [Hx|Hx]; discriminate.
+  - intros s0 x y Hts (P1 & P2 & P3 & P4).
+    destruct Hts; cbn [k_st k_skipped k_main_ok k_ran_main with_st with_flags with_phase with_assoc with_permit with_released past_main];
+      try (repeat split; assumption);
+      try match goal with Hf : if k_final ?x then _ else _ |- _ => destruct (k_final x) end;
+      try match goal with Hst : k_st _ = _ |- _ => rewrite Hst in * end;
+      cbn [past_main] in *;
+      intuition (try discriminate; try congruence).
+Qed.
+
+(** * Part 10 (C03): only [set_result] of a final task in its main makes a transfer successful *)
+Definition no_new_success (l l' : list coord) : Prop :=
+  forall t c c', find_coord t l = Some c -> find_coord t l' = Some c' ->
+    c_status c' = Success -> c_status c = Success.
+
+Lemma no_new_success_refl l : no_new_success l l.
+Proof. intros t c c' H1 H2. rewrite H1 in H2. now injection H2 as <-. Qed.
+
+Lemma find_coord_upd_const_gen t t0 l c y :
+  find_coord t l = Some c -> c_id y = t ->
+  find_coord t0 (upd_coord t (fun _ => y) l) = if t0 =? t then Some y else find_coord t0 l.
+Proof.
+  intros Hf Hy. destruct (t0 =? t) eqn:E.
+  - assert (t0 = t) by lia. subst t0. now apply find_coord_upd_const with (c := c).
+  - clear Hf. induction l as [|x r IH]; cbn [upd_coord map find_coord]; [reflexivity|].
+    fold (upd_coord t (fun _ => y) r).
+    destruct (c_id x =? t) eqn:E1.
+    + assert (E2 : c_id y =? t0 = false) by lia. rewrite E2.
+      assert (E3 : c_id x =? t0 = false) by lia. rewrite E3. exact IH.
+    + destruct (c_id x =? t0); [reflexivity|exact IH].
+Qed.
+
+Lemma on_coord_status s t f s' :
+  on_coord s t f = Some s' ->
+  (forall c y, f c = Some y -> c_id y = c_id c /\ (c_status y = Success -> c_status c = Success)) ->
+  no_new_success (coords s) (coords s').
+Proof.
+  intros H Hf. apply on_coord_inv in H as (c & y & Hc & Hy & ->). cbn [coords set_coords].
+  destruct (Hf c y Hy) as [Hid Hst]. pose proof (find_coord_some_id _ _ _ Hc) as Hcid.
+  intros t0 c0 c0' H0 H0' Hs. rewrite (find_coord_upd_const_gen t t0 _ c y Hc) in H0' by lia.
+  destruct (t0 =? t) eqn:E; [|rewrite H0 in H0'; now injection H0' as <-].
+  assert (t0 = t) by lia. subst t0. injection H0' as <-. rewrite Hc in H0. injection H0 as <-. auto.
+Qed.
+
+Ltac destr_to H :=
+  repeat match type of H with
+         | on_coord _ _ _ = Some _ => fail 1
+         | on_task _ _ _ = Some _ => fail 1
+         | bind _ _ = Some _ => fail 1
+         | Some _ = Some _ => fail 1
+         | None = Some _ => discriminate H
+         | (if ?b then _ else _) = Some _ => destruct b eqn:?
+         | (match ?x with _ => _ end) = Some _ => destruct x eqn:?
+         end.
+
+Ltac coords_eq :=
+  repeat first [ rewrite set_stage_coords | rewrite bump_coords | reflexivity
+               | progress cbn [coords set_tasks set_sems set_reqs set_uploads set_shutdown set_coords set_files] ].
+
+Ltac apply_oc H :=
+  eapply on_coord_status; [exact H|];
+  let c := fresh "c" in let y := fresh "y" in let Hf := fresh "Hf" in
+  intros c y Hf; cbv beta in Hf; destr Hf; injection Hf as <-; cbn;
+  (split; [reflexivity
+          |first [congruence
+                 |let Hs := fresh "Hs" in intros Hs;
+                  repeat match type of Hs with context [if ?b then _ else _] => destruct b end; congruence]]).
+
+Ltac nns_fin H :=
+  first
+    [ injection H as <-;
+      first [ apply no_new_success_refl
+            | match goal with |- no_new_success (coords ?s) (coords ?s') =>
+                let E := fresh in assert (E : coords s' = coords s) by coords_eq; rewrite E; apply no_new_success_refl end ]
+    | match type of H with on_task _ _ _ = Some _ =>
+        rewrite (on_task_coords _ _ _ _ H); apply no_new_success_refl end
+    | match type of H with on_coord (bump_after_shutdown ?s) _ _ = Some _ =>
+        rewrite <- (bump_coords s); apply_oc H end
+    | apply_oc H
+    | match type of H with bind _ _ = Some _ =>
+        unfold bind in H;
+        match type of H with match ?o with _ => _ end = _ =>
+          let E1 := fresh "E1" in destruct o eqn:E1; [|discriminate H];
+          rewrite (on_task_coords _ _ _ _ H); apply_oc E1 end end ].
+
+Lemma success_only_by_set_result s e s' :
+  step s e = Some s' ->
+  no_new_success (coords s) (coords s') \/
+  (exists k x, e = ESetResult k /\ busy s k = false /\ find_task k (tasks s) = Some x /\
+               k_st x = TMain /\ k_final x = true /\ tasks s' = tasks s /\
+               forall t c c', find_coord t (coords s) = Some c -> find_coord t (coords s') = Some c' ->
+                 c_status c' = Success -> c_status c = Success \/ t = k_t x).
+Proof.
+  intros H. destruct e; cbn [step] in H.
+  13: { (* ESetResult *)
+    right. destruct (busy s k) eqn:Eb; [discriminate|].
+    destruct (find_task k (tasks s)) as [x|] eqn:Ex; [|discriminate].
+    destruct (tst_eqb (k_st x) TMain && k_final x) eqn:Eg; [|discriminate].
+    apply andb_prop in Eg as [E1 E2]. exists k, x. repeat split; try assumption; try reflexivity.
+    - now apply tst_eqb_true.
+    - now apply on_coord_tasks in H.
+    - apply on_coord_inv in H as (c & y & Hc & [= <-] & ->). cbn [coords set_coords].
+      pose proof (find_coord_some_id _ _ _ Hc) as Hcid.
+      intros t0 c0 c0' H0 H0' Hs.
+      rewrite (find_coord_upd_const_gen (k_t x) t0 _ c _ Hc) in H0' by (cbn; lia).
+      destruct (t0 =? k_t x) eqn:E; [right; lia|left]. rewrite H0 in H0'. now injection H0' as <-. }
+  1: { (* ENewTransfer *)
+    left. destr_to H. injection H as <-. cbn [coords set_coords].
+    intros t0 c0 c0' H0 H0' Hs. rewrite find_coord_app, H0 in H0'. now injection H0' as <-. }
+  26: { (* EAnnEnd: the only non-constant coordinator update *)
+    left. destruct (busy s a); [discriminate|].
+    destruct (find_coord t (coords s)) as [c|] eqn:Ec; [|discriminate].
+    assert (G : no_new_success (coords s)
+                  (upd_coord t (fun c0 => c_with_ann c0 (c_owing c0) (ann_del a (c_announcers c0))) (coords s))).
+    { intros t0 c0 c0' H0 H0' Hs. rewrite find_coord_upd in H0' by reflexivity.
+      destruct (t0 =? t); [|rewrite H0 in H0'; now injection H0' as <-].
+      rewrite H0 in H0'. cbn in H0'. injection H0' as <-. exact Hs. }
+    destr_to H;
+      first [ injection H as <-; exact G
+            | rewrite (on_task_coords _ _ _ _ H); exact G ]. }
+  all: left; destr_to H; nns_fin H.
 Qed.
